@@ -233,6 +233,10 @@ class CallMixin:
         in scope, between the heap of `st` and `newheap` (same facts as the quantified rely clauses)"""
         for n, v in st.env.items():
             k = strip_opt(v.ty)
+            if k.kind in ("any", "exc", "lib"):
+                a = Val.a(v.t)
+                s2.assume(z3.Implies(z3.And(Val.is_ref(v.t), 0 <= a, a < st.heap["alloc"]),
+                                     z3.Select(newheap["fld:__class__"], a) == z3.Select(st.heap["fld:__class__"], a)))
             if k.kind != "inst":
                 continue
             a = Val.a(v.t)
@@ -271,7 +275,10 @@ class CallMixin:
         for entry in self.reg.invariants:
             self.assume_invariant(s2, entry, new)
         if self.spec is not None and hasattr(self.spec, "extra_rely") and not getattr(self, "_dry", 0) < 0:
-            for (name, fn) in self.spec.extra_rely(self, st):
+            import inspect
+            er = self.spec.extra_rely
+            clauses = er(self, st, anchor) if len(inspect.signature(er).parameters) >= 3 else er(self, st)
+            for (name, fn) in clauses:
                 s2.assume(fn(old, new))
         self.assume_immutables(s2, st, newheap)
         # objects owned by this activation are untouched (only the components that describe an object of that kind)
@@ -444,6 +451,8 @@ class CallMixin:
         k = fv.ty.kind
         if k == "func":
             qual = fv.ty.name
+            if qual in self.reg.func_calls:
+                return self.reg.func_calls[qual](self, st, pos, kw, node)
             if qual in self.reg.specs:
                 return self.call_spec(st, qual, pos, kw, self.anchor_for(node), awaited=awaited, packs=packs)
             return self.opaque_call(st, fv, pos + list(kw.values()) + list(packs), None, f"call({qual.split('.')[-1]})")
@@ -647,6 +656,51 @@ class CallMixin:
             if self.feasible(bad):
                 out.append(Res(bad, None, e))
         return out
+
+    # ------------------------------------------------------------------ context managers
+    def cm_enter(self, st: State, cm: SV, is_async: bool, item) -> list[Res]:
+        k = strip_opt(cm.ty)
+        if k.kind == "lib" and k.name in self.reg.lib_cms:
+            return self.reg.lib_cms[k.name][0](self, st, cm, is_async, item)
+        if k.kind == "inst":
+            fi = self.world.find_method(k.name, "__aenter__" if is_async else "__enter__")
+            if fi is not None and fi.qual in self.reg.specs:
+                return self.call_spec(st, fi.qual, [cm], {}, f"with:{k.name}.enter#{self._ord('with-enter')}", awaited=True)
+        raise Untranslatable(f"with-statement over {cm.ty} has no contract")
+
+    def _ord(self, label):
+        n = self.call_ord.get(label, 0)
+        self.call_ord[label] = n + 1
+        return n
+
+    def cm_exit(self, o: Outcome, cm: SV, is_async: bool, item) -> list[Outcome]:
+        k = strip_opt(cm.ty)
+        if k.kind == "lib" and k.name in self.reg.lib_cms:
+            return self.reg.lib_cms[k.name][1](self, o, cm, is_async, item)
+        if k.kind == "inst":
+            fi = self.world.find_method(k.name, "__aexit__" if is_async else "__exit__")
+            if fi is not None and fi.qual in self.reg.specs:
+                st = o.st
+                if o.kind == "raise":
+                    ev = o.val
+                    et = SV(st.fld("__class__", Val.a(ev.t)), ANY)
+                else:
+                    ev, et = NONE_SV, NONE_SV
+                out = []
+                for r in self.call_spec(st, fi.qual, [cm, et, ev, NONE_SV], {}, f"with:{k.name}.exit#{self._ord('with-exit')}", awaited=True):
+                    if r.exc is not None:
+                        out.append(Outcome("raise", r.st, r.exc))
+                    elif o.kind == "raise":
+                        sup = self.truth(r.st, r.val)
+                        s1, s2 = r.st.fork(sup, "suppressed"), r.st.fork(z3.Not(sup))
+                        if self.feasible(s1):
+                            out.append(Outcome("normal", s1))
+                        if self.feasible(s2):
+                            out.append(Outcome("raise", s2, o.val))
+                    else:
+                        out.append(Outcome(o.kind, r.st, o.val))
+                return out
+        raise Untranslatable(f"with-statement over {cm.ty} has no contract")
 
     def inline_closure(self, st: State, fi, pos, kw) -> list[Res]:
         raise Untranslatable(f"closure {fi.qual} has no contract (inlining not enabled)")
